@@ -33,7 +33,7 @@ ASSUMPTIONS = [
     'get_version shim']
 NOT_REACHED = ['raptor path (C20)', 'more than two pilots / pilot death (C12, C13); the second pilot has a stub agent', 'real process spawning (C10)',
                'exceptions thrown by a component outside any per-task section fail the bulk by design and are not generated']
-BUDGET = {'quick': 110, 'thorough': 1500}
+BUDGET = {'quick': 160, 'thorough': 1500}
 
 FAULTS = ['tin_missing_source', 'ain_missing_source', 'aout_missing_source', 'tout_missing_source',
           'ain_missing_link', 'aout_missing_link',
@@ -97,14 +97,15 @@ def cases(draw):
 
 def parts(tier):
     from . import c07
-    return [Part('pipeline', cases(), quick=420, thorough=1500),
+    # (the cheap parts first: a wall-clock budget hit leaves the long pipeline part short, not them)
+    return [# the Flux executor's event handling: process outcome -> target state
+            Part('flux_events', c05_flux.cases(), quick=400, thorough=3000),
+            # ... and executor + launch method together: job ids and job events in any order
+            Part('flux_pipeline', fluxsim.cases(), quick=300, thorough=2500),
             # executor-level scenario on the virtual clock: start-up reported in time, then the task
             # runs longer than its start-up limit (CANCELED only if a timeout was requested and hit)
             Part('startup_report', enum=c07.startup_cases),
-            # the Flux executor's event handling: process outcome -> target state
-            Part('flux_events', c05_flux.cases(), quick=400, thorough=3000),
-            # ... and executor + launch method together: job ids and job events in any order
-            Part('flux_pipeline', fluxsim.cases(), quick=300, thorough=2500)]
+            Part('pipeline', cases(), quick=420, thorough=1500)]
 
 
 def normalise(case):
